@@ -710,21 +710,36 @@ def s6_poll(prog, rep, P, tag=""):
     _ = reach
     # last timeout: retries_left == 0 -> release -> Err(Timeout)
     ok = False
+    for sw_bb, eq_t in no_retries_edges(b):
+        dom = q.edge_dominated(b, sw_bb, eq_t)
+        rel = [c for c in b.calls_to("ReceiveFrameFut::release")]
+        errs = [x for x in q.aggregates(b, "Error", "Timeout") if x[0] in dom]
+        ok = bool(rel) and all(c.bb in dom for c in rel) and bool(errs)
+        # every return reachable inside dom is preceded by the release
+        for r in b.return_blocks():
+            if r in dom and not b.every_path_passes(eq_t, r, {c.bb for c in rel}):
+                ok = False
+    rep.ob(P + ".S6", "poll:last-timeout-releases" + tag, ok, "with retries_left == 0 an expired deadline releases the slot and returns Err(Timeout)", loc=b.span)
+
+
+def no_retries_edges(b):
+    """Edges of poll on which no retry is left: the equal edge of `retries_left == 0` (or `!= 0`), or the None edge
+    of `retries_left.checked_sub(1)`.  -> [(switch_bb, target)]"""
+    out = []
+    pr = Prov(b)
     for c2 in q.conds(b):
         if c2.kind == "cmp" and c2.op in ("Eq", "Ne"):
-            pr = Prov(b)
             both = pr.of_operand(c2.lhs) | pr.of_operand(c2.rhs)
-            if has_root(both, "field", "ReceiveFrameFut", "retries_left") and has_root(both, "const", 0):
-                eq_t = c2.true_target() if c2.op == "Eq" else c2.false_target()
-                dom = q.edge_dominated(b, c2.bb, eq_t)
-                rel = [c for c in b.calls_to("ReceiveFrameFut::release")]
-                errs = [x for x in q.aggregates(b, "Error", "Timeout") if x[0] in dom]
-                ok = bool(rel) and all(c.bb in dom for c in rel) and bool(errs)
-                # every return reachable inside dom is preceded by the release
-                for r in b.return_blocks():
-                    if r in dom and not b.every_path_passes(eq_t, r, {c.bb for c in rel}):
-                        ok = False
-    rep.ob(P + ".S6", "poll:last-timeout-releases" + tag, ok, "with retries_left == 0 an expired deadline releases the slot and returns Err(Timeout)", loc=b.span)
+            if has_root(both, "field", "ReceiveFrameFut", "retries_left") and has_root(both, "const", 0) and not has_root(both, "binop"):
+                t = c2.true_target() if c2.op == "Eq" else c2.false_target()
+                if t is not None:
+                    out.append((c2.bb, t))
+    for c in b.calls():
+        if (c.decl_s or "").endswith("::checked_sub") and len(c.args) == 2 and q.const_int(c.args[1]) == 1 and has_root(pr.of_operand(c.args[0]), "field", "ReceiveFrameFut", "retries_left"):
+            for sw, okt, errt in q.ok_edges(b, c, ok="Some"):
+                if errt is not None:
+                    out.append((sw, errt))
+    return out
 
 
 def s6_drops(prog, rep, P, tag=""):
@@ -766,26 +781,39 @@ def s6_drops(prog, rep, P, tag=""):
 
 
 def s6_reset(prog, rep, P, tag=""):
+    """Group-level (function + its closures), so a `for` loop and `(0..n).map(..).for_each(..)` read the same: one
+    set_state(_, None) whose slot comes from frame_at_index(i), i ranging over 0..num_frames through a loop variable
+    or closure parameters, with no adaptor that drops indices."""
     b = prog.body("PduStorageRef::reset")
-    st = b.calls_to("FrameElement::set_state")
-    ok = len(st) == 1
+    grp = prog.group("PduStorageRef::reset")
+    sts = [(g, c) for g in grp for c in g.calls_to("FrameElement::set_state")]
+    ok = len(sts) == 1
     d = ""
     if ok:
-        pr = Prov(b)
-        fr = pr.of_operand(st[0].args[0])
-        c1 = has_root(fr, "call", "PduStorageRef::frame_at_index")
-        c2 = _state_of(pr.of_operand(st[0].args[1])) == ["None"]
-        rng = q.aggregates(b, "Range")
+        g, st0 = sts[0]
+        pr = Prov(g)
+        fr = pr.of_operand(st0.args[0])
+        fis = [(h, c) for h in grp for c in h.calls_to("PduStorageRef::frame_at_index")]
+        from_param = any(x[0] == "arg" for x in fr) and g.is_closure
+        c1 = has_root(fr, "call", "PduStorageRef::frame_at_index") or (from_param and len(fis) == 1 and fis[0][0].is_closure and has_root(Prov(fis[0][0]).of_local(0), "call", "PduStorageRef::frame_at_index"))
+        c2 = _state_of(pr.of_operand(st0.args[1])) == ["None"]
         c3 = False
-        for bi, si, s in rng:
-            a = pr.of_operand(q.agg_field(s, "start"))
-            e = pr.of_operand(q.agg_field(s, "end"))
-            if has_root(a, "const", 0) and has_root(e, "field", "PduStorageRef", "num_frames") and not has_root(e, "binop"):
-                c3 = True
-        fi = b.calls_to("PduStorageRef::frame_at_index")
-        c4 = len(fi) == 1 and any(x[0] == "call" and x[1].endswith("::next") for x in pr.of_operand(fi[0].args[1]))
-        ok = c1 and c2 and c3 and c4
-        d = "frame-from-index=%s to-None=%s range-0..num_frames=%s index-is-loop-var=%s" % (c1, c2, c3, c4)
+        for h in grp:
+            ph = Prov(h)
+            for bi, si, s_ in q.aggregates(h, "Range"):
+                a = ph.of_operand(q.agg_field(s_, "start"))
+                e = ph.of_operand(q.agg_field(s_, "end"))
+                if has_root(a, "const", 0) and has_root(e, "field", "PduStorageRef", "num_frames") and not has_root(e, "binop"):
+                    c3 = True
+        c4 = False
+        if len(fis) == 1:
+            h, fi = fis[0]
+            ix = Prov(h).of_operand(fi.args[1])
+            c4 = any(x[0] == "call" and x[1].endswith("::next") for x in ix) or (h.is_closure and any(x[0] == "arg" and x[1] >= 2 for x in ix))
+        drops = [c.name for h in grp for c in h.calls() if (c.decl_s or "") in ("Iterator::filter", "Iterator::skip", "Iterator::take", "Iterator::step_by", "Iterator::skip_while", "Iterator::take_while", "Iterator::filter_map", "Iterator::rev") and (c.decl_s or "") != "Iterator::rev"]
+        c5 = not drops
+        ok = c1 and c2 and c3 and c4 and c5
+        d = "frame-from-index=%s to-None=%s range-0..num_frames=%s index-is-loop-var=%s no-dropping-adaptor=%s" % (c1, c2, c3, c4, c5)
     rep.ob(P + ".S6", "reset:all-slots" + tag, ok, "reset stores None into every slot index 0..num_frames; " + d, loc=b.span)
 
 
